@@ -1,9 +1,14 @@
 import WzVerif.Driver.Proto
 import WzVerif.Model.Wire
 import WzVerif.Model.Containers
+import WzVerif.Model.ContainersHeap
 import WzVerif.Driver.PyPrelude
 namespace Wz.Driver.C08
 open Wz Wz.Proto Wz.Wire Wz.Hdr
+
+/-- harness op name -> Python method name -/
+def pyName (n : String) : String :=
+  if n == "setitem" then "__setitem__" else if n == "delitem" then "__delitem__" else if n == "ior" then "__ior__" else n
 
 /-! ### Headers -/
 
@@ -133,7 +138,7 @@ def mdRun (immutable all : Bool) (probes : List Str) (c : MDS) (ops : List Strin
       pure (here :: rest)
     | _ => do
       let op ← pMDOp o
-      let r : MD.Res Str Str (MD.Ret Str Str) := if immutable then (c, .error "TypeError") else MD.step c op
+      let r : MD.Res Str Str (MD.Ret Str Str) := if immutable then Imm.mdStep "ImmutableMultiDict" c op else MD.step c op
       let here := oExcept oMDRet r.2
       let here := if all || t.isEmpty then here ++ "#" ++ mdDump probes r.1 else here
       let rest ← mdRun immutable all probes r.1 t
@@ -168,9 +173,10 @@ def cmdRun (all : Bool) (probes : List Str) (c : CMD.St Str Str) (ops : List Str
   | [] => some []
   | o :: t =>
     match o.splitOn "," with
-    | "c" :: _ => do
-      -- any mutator on the combined dict itself
-      let here := oExc "TypeError"
+    | "c" :: name :: _ => do
+      -- a mutator on the combined dict itself: refused iff the generated table lists it as blocked
+      let r : Unit × Except String String := Imm.call "CombinedMultiDict" (pyName name) (fun u => (u, .ok "NOT-BLOCKED")) ()
+      let here := oExcept id r.2
       let here := if all || t.isEmpty then here ++ "#" ++ cmdDump probes c else here
       let rest ← cmdRun all probes c t
       pure (here :: rest)
@@ -263,7 +269,9 @@ def ehRun (all : Bool) (probes : List Str) (env : EH.Env) (ops : List String) : 
       | ["envdel", k] => do
         let k ← pAtom k
         pure (PyDict.erase env k, "~")
-      | ["m", _] => pure (env, oExc "TypeError")
+      | ["m", name] =>
+        let r : Unit × Except String String := Imm.call "EnvironHeaders" (pyName name) (fun u => (u, .ok "NOT-BLOCKED")) ()
+        pure (env, oExcept id r.2)
       | _ => none : Option (EH.Env × String))
     let here := if all || t.isEmpty then here ++ "#" ++ ehDump probes env' else here
     let rest ← ehRun all probes env' t
@@ -276,6 +284,85 @@ def handleEH (all probes init : String) (ops : List String) : Option String := d
   let outs ← ehRun (all == "1") probes env ops
   pure (";".intercalate (("#" ++ (if all == "1" || ops.isEmpty then ehDump probes env else "")) :: outs))
 
+/-! ### TypeConversionDict / ImmutableTypeConversionDict -/
+
+def pDictOp (s : String) : Option (PyDict.Op Str Str) :=
+  match s.splitOn "," with
+  | ["setitem", k, v] => do pure (.setitem (← pAtom k) (← pAtom v))
+  | ["delitem", k] => do pure (.delitem (← pAtom k))
+  | ["clear"] => some .clear
+  | ["popitem"] => some .popitem
+  | ["update", ps] => do pure (.update (← pPairs ps))
+  | ["setdefault", k, v] => do pure (.setdefault (← pAtom k) (← pAtom v))
+  | ["pop", k, d] => do pure (.pop (← pAtom k) (← pOptAtom d))
+  | _ => none
+
+def tcdDump (probes : List Str) (d : PyDict.Dict Str Str) : String :=
+  let perKey := probes.map fun k =>
+    "k" ++ oS k ++ "=" ++ oOpt oS (TCD.getPlain d k none) ++ "/" ++ oOpt oInt (TCD.get pyInt d k none) ++ "/" ++
+      oOpt oInt (TCD.get pyInt d k (some (-1))) ++ "/" ++ oBool (PyDict.has d k)
+  "|".intercalate (["len=" ++ oNat d.length, "items=" ++ oPairs d] ++ perKey)
+
+def tcdRun (immutable all : Bool) (probes : List Str) (d : PyDict.Dict Str Str) (ops : List String) : Option (List String) :=
+  match ops with
+  | [] => some []
+  | o :: t => do
+    let op ← pDictOp o
+    let r := if immutable then Imm.dictStep "ImmutableTypeConversionDict" d op else PyDict.step d op
+    let here := oExcept (oOpt oS) r.2
+    let here := if all || t.isEmpty then here ++ "#" ++ tcdDump probes r.1 else here
+    let rest ← tcdRun immutable all probes r.1 t
+    pure (here :: rest)
+
+def handleTCD (cls all probes init : String) (ops : List String) : Option String := do
+  let probes ← pAtoms probes
+  let init ← pPairs init
+  let d : PyDict.Dict Str Str := Pickle.dictOf [] init
+  let outs ← tcdRun (cls == "I") (all == "1") probes d ops
+  pure (";".intercalate (("#" ++ (if all == "1" || ops.isEmpty then tcdDump probes d else "")) :: outs))
+
+/-! ### MultiDict with object identity: an original and its copy on one heap
+
+request: `heap <probes> <init tag> <init body> op…`, ops `o,<i>,<multidict op>` (i = 0 the original,
+1 the copy) and `via,<i>,<key>,<values>` = `d.setlistdefault(key).extend(values)` (mutation through
+the live list). The copy is made by `HeapMD.copyObj` (copy() / copy.copy / deepcopy / pickle). -/
+
+def heapOf (c : MDS) : HeapMD.Heap Str × HeapMD.Obj Str :=
+  (c.map (·.2), c.mapIdx fun i e => (e.1, i))
+
+def heapDump (probes : List Str) (h : HeapMD.Heap Str) (os : HeapMD.Obj Str × HeapMD.Obj Str) : String :=
+  mdDump probes (HeapMD.abs h os.1) ++ "@" ++ mdDump probes (HeapMD.abs h os.2)
+
+def heapRun (probes : List Str) (h : HeapMD.Heap Str) (os : HeapMD.Obj Str × HeapMD.Obj Str) :
+    List String → Option (List String)
+  | [] => some []
+  | o :: t => do
+    let (h', os', ret) ← (match o.splitOn "," with
+      | "o" :: i :: rest => do
+        let op ← pMDOp (",".intercalate rest)
+        let obj := if i == "0" then os.1 else os.2
+        let r := HeapMD.step h obj op
+        let res := oExcept oMDRet (HeapMD.result h obj op)
+        pure (r.1, if i == "0" then (r.2, os.2) else (os.1, r.2), res)
+      | ["via", i, k, vs] => do
+        let k ← pAtom k
+        let vs ← pAtoms vs
+        let obj := if i == "0" then os.1 else os.2
+        let r1 := HeapMD.step h obj (.setlistdefault k [])
+        let r2 := HeapMD.next r1.1 r1.2 (.via k vs)
+        pure (r2.1, if i == "0" then (r2.2, os.2) else (os.1, r2.2), "~")
+      | _ => none : Option (HeapMD.Heap Str × (HeapMD.Obj Str × HeapMD.Obj Str) × String))
+    let rest ← heapRun probes h' os' t
+    pure ((ret ++ "#" ++ heapDump probes h' os') :: rest)
+
+def handleHeap (probes tag body : String) (ops : List String) : Option String := do
+  let probes ← pAtoms probes
+  let arg ← pMDArg tag body
+  let (h0, o0) := heapOf (MD.construct arg)
+  let (h1, o1) := HeapMD.copyObj h0 o0
+  let outs ← heapRun probes h1 (o0, o1) ops
+  pure (";".intercalate (("#" ++ heapDump probes h1 (o0, o1)) :: outs))
+
 def orBad (o : Option String) : Option String := some (o.getD badArgs)
 
 def handle : Handler
@@ -285,6 +372,8 @@ def handle : Handler
   | "cmd", all :: probes :: n :: rest => orBad (n.toNat?.bind fun n => handleCMD all probes n rest)
   | "hs", all :: probes :: init :: ops => orBad (handleHS all probes init ops)
   | "eh", all :: probes :: init :: ops => orBad (handleEH all probes init ops)
+  | "tcd", cls :: all :: probes :: init :: ops => orBad (handleTCD cls all probes init ops)
+  | "heap", probes :: tag :: body :: ops => orBad (handleHeap probes tag body ops)
   | cmd, args => Wz.Driver.PyPrelude.handle cmd args  -- `pre.*`: primitives of Util/PyPrelude
 
 end Wz.Driver.C08
